@@ -355,6 +355,26 @@ def check(ctx):
                     k = ev[4]       # includes the conditions under which a helper selected the stored value
                 kind_stores.append((p, p.conds[:k] if k is not None else p.conds, ev[1].split(' = ', 1)[1]))
     if len(kind_stores) < 3:
+        # the assignment of the kind may have been moved into a step of its own (a method of the compiler that is handed the tag): examined there
+        for c_ in walk_no_nested(f):
+            if isinstance(c_, ast.Call) and isinstance(c_.func, ast.Attribute) and isinstance(c_.func.value, ast.Name) and c_.func.value.id == 'self':
+                r_ = f._cls.find_method(c_.func.attr)
+                if not r_ or r_[1] is f:
+                    continue
+                g_ = r_[1]
+                if not any(isinstance(x_, ast.Assign) and isinstance(x_.targets[0], ast.Subscript) and isinstance(x_.targets[0].slice, ast.Constant) and x_.targets[0].slice.value == 'kind'
+                           for x_ in walk_no_nested(g_)):
+                    continue
+                gps = sem.paths(g_, resolver=sem.class_resolver(f._cls, keep=('is_dummy_reference', 'resolve_type_name')))
+                for p in gps or []:
+                    for ev in p.events:
+                        if ev[0] == 'store' and re.search(r"\['kind'\] = ", ev[1]):
+                            k = None
+                            for ev2 in p.events:
+                                if ev2[0] == 'stmt' and ev2[2] is ev[2]:
+                                    k = ev2[1]
+                            kind_stores.append((p, p.conds[:k] if k is not None else p.conds, ev[1].split(' = ', 1)[1]))
+    if len(kind_stores) < 3:
         raise AnalysisError('pre_process_tags_type: only %d paths set the tag kind' % len(kind_stores))
     is_choice = lambda t: "'CHOICE'" in t and ' == ' in t
     is_dummy = lambda t: 'is_dummy_reference(' in t
